@@ -306,10 +306,10 @@ ParSet == [n \in NSet |-> IF n <= FullUpTo THEN ParSeqs(n) ELSE {p \in ParSeqs(n
 \* than their parents), and every other position (holes in the DepGraph)
 \* value domains of the Rows_*.cfg (a cfg file cannot spell tuples or negative numbers): zero fees, equal feerates at
 \* different sizes (1/1 = 2/2, 3/1 = 6/2), negative fees
-ValsQ4 == {<<0, 1>>, <<1, 1>>, <<1, 2>>, <<3, 1>>, <<3, 2>>}
+ValsQ4 == {<<0, 1>>, <<1, 1>>, <<2, 2>>, <<2, 1>>, <<3, 2>>}          \* feerates 0, 1, 1 (twice the size), 2, 3/2
 ValsQ3 == {<<-1, 1>>, <<0, 1>>, <<0, 3>>, <<2, 1>>, <<2, 3>>, <<6, 3>>}
-ValsT4 == {<<-1, 1>>, <<0, 1>>, <<0, 2>>, <<1, 1>>, <<1, 2>>, <<2, 2>>, <<3, 1>>, <<3, 2>>}
-ValsT5 == {<<0, 1>>, <<1, 1>>, <<1, 2>>, <<3, 2>>}
+ValsT4 == {<<-1, 1>>, <<0, 1>>, <<1, 1>>, <<2, 2>>, <<2, 1>>, <<3, 2>>}
+ValsT5 == {<<0, 1>>, <<1, 1>>, <<2, 1>>, <<3, 2>>}
 ValsQuick == [n \in 1..4 |-> IF n = 4 THEN ValsQ4 ELSE ValsQ3]
 ValsThorough == [n \in 1..5 |-> IF n = 5 THEN ValsT5 ELSE ValsT4]
 MapsFor(n) == <<[i \in 1..n |-> i], [i \in 1..n |-> n + 1 - i], [i \in 1..n |-> 2 * i]>>
